@@ -215,6 +215,10 @@ def catalogue(tier):
         P = tuple(tuple(rng.randint(0, 1) for _ in range(m)) for _ in range(k))
         C.append(Cfg("systematic", P, perm_info(rng, k + m, k)))
         C.append(Cfg("systematic", P, "right"))
+    # rank-deficient user check matrices whose dependent row is NOT the last one (a repeated first row; a third row that is the sum
+    # of the first two): whoever keeps "the first n-k rows" loses a check equation.  Appended last: earlier entries keep their order.
+    C.append(Cfg("ldpc", ((1, 1, 0, 1, 0, 0), (1, 1, 0, 1, 0, 0), (0, 1, 1, 0, 1, 0), (1, 0, 1, 0, 0, 1))))
+    C.append(Cfg("ldpc", ((1, 1, 0, 1, 0, 0, 1), (0, 1, 1, 0, 1, 0, 0), (1, 0, 1, 1, 1, 0, 1), (0, 0, 1, 1, 0, 1, 1))))
     return tuple(C)
 
 
